@@ -265,6 +265,9 @@ func init() {
 			if ok {
 				a, b := gos[0].Call.StaticCallee(), gos[1].Call.StaticCallee()
 				ok = a != nil && b != nil && a != b && instrDominates(lock, reopen) && instrDominates(reopen, gos[0]) && gos[0].Block() == gos[1].Block()
+				if ok && (len(gos[0].Call.Args) < 2 || len(gos[1].Call.Args) < 2) {
+					ok = false // goroutines started through closures: connection and done channel are not arguments
+				}
 				if ok {
 					la, lb := gos[0].Call.Args[len(gos[0].Call.Args)-1], gos[1].Call.Args[len(gos[1].Call.Args)-1]
 					ok = la == lb && pathOf(gos[0].Call.Args[1]) == pathOf(gos[1].Call.Args[1])
